@@ -16,10 +16,13 @@ Record fixes := {
   fx_temp : bool;   (* tempPassword[0] initialised at the start of supla_esp_parse_vars *)
   fx_pro : bool;    (* supla_esp_parse_proto_var does not read pdata[len] *)
   fx_hdr : bool;    (* the header-end loop of supla_esp_parse_request stops at the first match *)
-  fx_clip : bool    (* the restored long-password tail keeps room for its terminator *)
+  fx_clip : bool;   (* the restored long-password tail keeps room for its terminator *)
+  fx_stale : bool   (* no overflow part stored: an empty one is written behind the new name *)
 }.
-Definition FIXED : fixes := {| fx_temp := true; fx_pro := true; fx_hdr := true; fx_clip := true |}.
-Definition UNFIXED : fixes := {| fx_temp := false; fx_pro := false; fx_hdr := false; fx_clip := false |}.
+Definition FIXED : fixes := {| fx_temp := true; fx_pro := true; fx_hdr := true; fx_clip := true; fx_stale := true |}.
+Definition UNFIXED : fixes := {| fx_temp := false; fx_pro := false; fx_hdr := false; fx_clip := false; fx_stale := false |}.
+(* the tree after the first four repairs (commits 2ca076d e200da5 086a6ad 820ad9a), before C14_stale_name_tail.diff *)
+Definition FIXED4 : fixes := {| fx_temp := true; fx_pro := true; fx_hdr := true; fx_clip := true; fx_stale := false |}.
 
 (* ---------- small helpers ---------- *)
 Fixpoint cstr (l : list Z) : list Z :=
@@ -407,6 +410,7 @@ Definition restore_password (fx : fixes) (old c : list Z) (m : mem) : mem :=
                    else slice old (O_Email + oldmail + 1) (part' + 1) in
       let m := if newmail + 1 + len bytes <=? Z_Email then m else fault m 3 in
       set_ncfg m (blit c1 (O_Email + newmail + 1) bytes)
+    else if fx_stale fx && (newmail <? Z_Email - 1) then set_ncfg m (blit c1 (O_Email + newmail + 1) [0])
     else set_ncfg m c1
   else set_ncfg m (upd c1 (O_LocationPwd + PWD_MAX - 1) 0).
 
